@@ -11,6 +11,15 @@ open Rxn Driver Rxn.Timers
 structure St where
   w : Wm.Watermarker := Wm.Watermarker.new 0
   op : Op := ⟨Registry.new (Store.new [] 1 0 1 0) [], [], 1⟩
+  -- the property's own reading, computed without the regenerated facts (C11.wm_eq_max_minus, composite_eq_min,
+  -- handler_sees_composite say the model agrees); a deviating line is emitted as `#spec`
+  lat : Int := 0
+  maxSeen : Int := Wm.zeroTime
+  -- the source runner's own watermarker (`&wmark.Watermarker{}`: no allowed lateness), driven through `sendOperatorEvent`
+  rw : Wm.Watermarker := Wm.Watermarker.new 0
+  rmaxSeen : Int := Wm.zeroTime
+  ids : List String := []
+  msgs : List (String × Int) := []
 
 def intOr (s : String) : Int := s.toInt?.getD 0
 
@@ -22,7 +31,7 @@ def initSt (hdr : List String) : St :=
     let store := Store.new [] (natOr kgc) 0 (natOr kgc) 1073741824
     -- `NewEventBatcher`: `MaxSize == 0` means 1
     let mb := if natOr maxBatch = 0 then 1 else natOr maxBatch
-    { w := Wm.Watermarker.new (intOr lat), op := ⟨Registry.new store ids, [], mb⟩ }
+    { w := Wm.Watermarker.new (intOr lat), op := ⟨Registry.new store ids, [], mb⟩, lat := intOr lat, ids := ids }
   | _ => {}
 
 def showEv : HEv → String
@@ -35,19 +44,48 @@ def showReqs (rs : List Req) : String := if rs.isEmpty then "-" else joinWith ""
 
 def parseInts (s : String) : List Int := if s == "-" then [] else (s.splitOn ",").map intOr
 
+def withSpec (model spec : String) : String :=
+  if model == spec then model else s!"{model} #spec {spec} #kf spec-deviation"
+
+/-- minimum over all configured or reporting runners of the latest report (the epoch if none); `time.Time{}` before any message -/
+def specComposite (ids : List String) (msgs : List (String × Int)) : Int :=
+  match msgs with
+  | [] => Wm.zeroTime
+  | _ =>
+    let runners := ids ++ msgs.map (·.1)
+    match runners.map (fun id => ((msgs.reverse.find? (·.1 == id)).map (·.2)).getD 0) with
+    | [] => Wm.zeroTime
+    | v :: vs => vs.foldl (fun m x => if x < m then x else m) v
+
+/-- every request of the step must carry the composite -/
+def retold (c : Int) (rs : List Req) : List Req := rs.map fun r => { r with told := c }
+
 def step (st : St) : List String → St × String
   | "evs" :: ts =>
-    ({ st with w := (Wm.runnerStep st.w (.events (ts.map intOr))).1 }, "ok")
+    ({ st with w := (Wm.runnerStep st.w (.events (ts.map intOr))).1,
+               maxSeen := (ts.map intOr).foldl (fun m x => if x > m then x else m) st.maxSeen }, "ok")
   | ["tick"] =>
+    let spec := toString (st.maxSeen - (st.lat + 1))
     match Wm.runnerStep st.w .tick with
-    | (w, some v) => ({ st with w := w }, toString v)
-    | (w, none) => ({ st with w := w }, "none")
+    | (w, some v) => ({ st with w := w }, withSpec (toString v) spec)
+    | (w, none) => ({ st with w := w }, withSpec "none" spec)
+  | "revs" :: ts =>
+    ({ st with rw := (Wm.runnerStep st.rw (.events (ts.map intOr))).1,
+               rmaxSeen := (ts.map intOr).foldl (fun m x => if x > m then x else m) st.rmaxSeen }, "ok")
+  | ["rtick"] =>
+    let spec := toString (st.rmaxSeen - 1)
+    match Wm.runnerStep st.rw .tick with
+    | (w, some v) => ({ st with rw := w }, withSpec (toString v) spec)
+    | (w, none) => ({ st with rw := w }, withSpec "none" spec)
   | ["keyed", _, k, ts] =>
     let r := st.op.keyed (hexOr k) (parseInts ts)
-    ({ st with op := r.1 }, s!"c={r.1.reg.wm} {showReqs r.2}")
+    let c := specComposite st.ids st.msgs
+    ({ st with op := r.1 }, withSpec s!"c={r.1.reg.wm} {showReqs r.2}" s!"c={c} {showReqs (retold c r.2)}")
   | ["wm", i, t] =>
     let r := st.op.watermark s!"sr{natOr i}" (intOr t)
-    ({ st with op := r.1 }, s!"c={r.1.reg.wm} {showReqs r.2}")
+    let msgs := st.msgs ++ [(s!"sr{natOr i}", intOr t)]
+    let c := specComposite st.ids msgs
+    ({ st with op := r.1, msgs := msgs }, withSpec s!"c={r.1.reg.wm} {showReqs r.2}" s!"c={c} {showReqs (retold c r.2)}")
   | _ => (st, "bad-op")
 
 def handle (lines : Array String) (i : Nat) (out : Array String) : Nat × Array String :=
